@@ -228,6 +228,11 @@ func processPoints(points []Point, closed bool) (
 	if (closed && len(points) < 3) || len(points) < 2 {
 		return
 	}
+	if closed && len(points) > 3 && points[len(points)-1] == points[0] {
+		// the closing point repeats the first point. Ignore it so that the
+		// turn at the first point takes part in the convex detection.
+		points = points[:len(points)-1]
+	}
 	var concave bool
 	var dir int
 	var a, b, c Point
